@@ -258,6 +258,8 @@ def _env_of(item):
     c = item[1]
     if item[0] == "big":
         return {"vectors": [{"name": "x"}]}
+    if c.get("special"):
+        return {"vectors": [{"name": "x"}]}   # the hand-built special families of a part (c09) use one vector named x
     return c["env"] if "env" in c else c["model"]["env"]
 
 
